@@ -189,11 +189,17 @@ def explore(tier, seed, model_ok=True, focus=False):
                                          observed=sa.OUTCOME_NAMES[c["outcome"]], message=c["msg"], call=c["call"],
                                          detail="model verdict (0 allowed, 1 permission error, 2 state error, 3 either; negative: role / state not "
                                                 "defined for the contract) disagrees with the outcome on the real contract"))
+    # behavioural on-behalf exploration with a real permissions hub on farm / locked farm / farm-staking
+    from props import behalf_common as bc
+    ex = bc.merge(ex, bc.explore_behalf("C19", tier, seed, model_ok, focus, keys=bc.keys_c19))
     return ex
 
 
 def replay(data):
     rp = data.get("replay") or {}
+    if rp.get("system") == "behalf":
+        from props import behalf_common as bc
+        return bc.replay_behalf(data, bc.keys_c19)
     if rp.get("kind") == "inventory":
         rows, _, _ = sa.load_table()
         have = any(r.contract == rp["contract"] and r.endpoint == rp["endpoint"] and r.variant == sa.V_PLAIN for r in rows)
